@@ -204,6 +204,9 @@ Proof.
   split; [exact B|]. split; [exact A|]. split; [lia|exact D].
 Qed.
 
+Lemma tree_pre_alpha lens pad T : tree_pre lens pad T -> 3 <= N.of_nat (length lens) <= MAX_ALPHA_SIZE.
+Proof. intros [A [B [C D]]]. change LEN_SIZE with 258 in C. change MAX_ALPHA_SIZE with 258. lia. Qed.
+
 Theorem make_tree_total : forall lens pad T, tree_pre lens pad T ->
   exists vd T', make_tree (N.of_nat (length lens)) (lens ++ pad) T = Done (vd, T') /\ tree_wf T' /\
                 verdict_result vd = complete_only lens /\ (vd = VBuilt -> tree_ok lens T').
@@ -279,17 +282,28 @@ Proof.
   destruct (W lens 20 <? 2 ^ 20); discriminate.
 Qed.
 
+(* the sentinel that stops the walk  while (v >= T->base[k + 1]) k++ *)
+Theorem built_tree_sentinel : forall lens pad T T', tree_pre lens pad T ->
+  make_tree (N.of_nat (length lens)) (lens ++ pad) T = Done (VBuilt, T') ->
+  nth 21 (t_base T') 0 = 2 ^ 64 - 1.
+Proof.
+  intros lens pad T T' Hpre E. destruct (built_tree_ok lens pad T T' Hpre E) as [OK Hfull].
+  destruct OK as [_ [_ [_ [[_ BV] _]]]]. rewrite BV by lia.
+  destruct (tree_pre_unfold lens pad T Hpre) as [Hok [Hn3 [Hn _]]].
+  apply (BASE_21 lens Hfull).
+Qed.
+
 (* (c) the decode sequence on a built tree runs without an undefined event for every buffer value
    below 2^64 - 1; the code length is in 1..20, the symbol is an internal symbol of the alphabet *)
-Theorem tree_decode_safe : forall lens pad T T' v, tree_pre lens pad T -> (length lens <= 258)%nat ->
+Theorem tree_decode_safe : forall lens pad T T' v, tree_pre lens pad T ->
   make_tree (N.of_nat (length lens)) (lens ++ pad) T = Done (VBuilt, T') ->
   v < 2 ^ 64 - 1 ->
   exists s k v', tree_decode (N.of_nat (length lens)) T' v = Done (s, k, v') /\
                  1 <= k <= 20 /\ s <= 258 /\ v' = (v * 2 ^ k) mod 2 ^ 64.
 Proof.
-  intros lens pad T T' v Hpre Hn E Hv.
+  intros lens pad T T' v Hpre E Hv.
   destruct (built_tree_ok lens pad T T' Hpre E) as [OK Hfull].
-  destruct (tree_pre_unfold lens pad T Hpre) as [Hok [Hn3 _]].
+  destruct (tree_pre_unfold lens pad T Hpre) as [Hok [Hn3 [Hn _]]].
   destruct (tree_decode_spec lens Hok ltac:(lia) Hfull T' OK v Hv) as [s [k [Ed [Hk [_ [a [Ha [_ Es]]]]]]]].
   exists s, (N.of_nat k), ((v * 2 ^ N.of_nat k) mod W64). split; [exact Ed|]. split; [lia|].
   split; [|reflexivity]. rewrite Es. apply isym_range; lia.
@@ -306,13 +320,13 @@ Proof.
   split.
   - unfold tree_pre. split; [cbn; lia|]. split; [repeat constructor; cbn; lia|]. split; [reflexivity|].
     unfold tree_wf. repeat split; reflexivity.
-  - eexists. split; vm_compute; reflexivity.
+  - eexists. split; [vm_compute; reflexivity|]. vm_compute. reflexivity.
 Qed.
 
 (* (d) the decode sequence computes the canonical bit-by-bit decoder of Dec/Format.v on the bits of v:
    it returns the internal symbol [isym alpha a] of the alphabet index a that [decode_sym lens] reads from
    the 64 buffer bits (msb first), and k is the number of bits [decode_sym] consumed *)
-Theorem tree_decode_correct : forall lens pad T T' v, tree_pre lens pad T -> (length lens <= 258)%nat ->
+Theorem tree_decode_correct : forall lens pad T T' v, tree_pre lens pad T ->
   make_tree (N.of_nat (length lens)) (lens ++ pad) T = Done (VBuilt, T') ->
   v < 2 ^ 64 - 1 ->
   exists a k rest,
@@ -322,9 +336,9 @@ Theorem tree_decode_correct : forall lens pad T T' v, tree_pre lens pad T -> (le
     run (decode_sym lens) (bits_msb 64 v) = Ok (a, rest) /\
     rest = bits_msb (64 - k) v /\ length rest = (64 - k)%nat.
 Proof.
-  intros lens pad T T' v Hpre Hn E Hv.
+  intros lens pad T T' v Hpre E Hv.
   destruct (built_tree_ok lens pad T T' Hpre E) as [OK Hfull].
-  destruct (tree_pre_unfold lens pad T Hpre) as [Hok [Hn3 _]].
+  destruct (tree_pre_unfold lens pad T Hpre) as [Hok [Hn3 [Hn _]]].
   destruct (tree_decode_spec lens Hok ltac:(lia) Hfull T' OK v Hv) as [s [k [Ed [Hk [Hi [a [Ha [Ea Es]]]]]]]].
   exists a, k, (bits_msb (64 - k) v). subst s. split; [exact Ed|]. split; [exact Hk|]. split; [exact Ha|].
   split; [|split; [reflexivity|apply bits_msb_length]].
@@ -349,6 +363,7 @@ Proof. split; [apply tree_decode_allones_oob|reflexivity]. Qed.
 Print Assumptions make_tree_safe.
 Print Assumptions make_tree_verdict.
 Print Assumptions make_tree_verdict_policy.
+Print Assumptions built_tree_sentinel.
 Print Assumptions tree_decode_safe.
 Print Assumptions tree_decode_allones_oob.
 Print Assumptions tree_decode_correct.
